@@ -5,7 +5,7 @@ EXTENDS Crypt
 
 
 \* ------------------------------------------------------------------------------------- configurations
-KeyLensQuick == {40, 64, 128}
+KeyLensQuick == {40, 128}
 KeyLensFull  == {40, 48, 56, 64, 72, 80, 88, 96, 104, 112, 120, 128}
 
 Algs(KL) ==
@@ -27,7 +27,7 @@ BothIds == {"present", "absent"}
 \* ------------------------------------------------------------------------------------- passwords
 AllTried == {"e", "a", "b", "L", "L2", "M", "M2", "n", "n2", "w", "x", "c", "s"}
 PairsQuick == {<<"a", "b">>, <<"e", "b">>, <<"L", "n">>, <<"n", "M">>, <<"M", "L">>, <<"a", "same">>}
-PairsFull == {<<u, o>> : u \in {"e", "a", "L", "M", "n"}, o \in {"b", "a", "L", "M", "n", "same"}}
+PairsFull == {<<u, o>> : u \in {"e", "a", "L", "M", "n"}, o \in {"b", "L", "M", "n", "same"}}
 CanonPair == {<<"a", "b">>}
 OpenTried == {"a", "b"}
 
@@ -60,7 +60,7 @@ CanonItem == {Str("direct", 10, 0, 5, 0)}
 AuthQuick == Valid(Mk(Algs(KeyLensQuick), SomePerms, BothIds, {"table"}, {"direct"}))
 AuthFull  == Valid(Mk(Algs(KeyLensFull), AllPerms, BothIds, {"table"}, {"direct"}))
 \* "content": every configuration x ID x physical form x Encrypt placement x every item location, both passwords
-ContentQuick == Valid(Mk(Algs(KeyLensQuick), OnePerm, BothIds, {"table", "xrefstm"}, {"direct", "indirect"}))
+ContentQuick == Valid(Mk(Algs(KeyLensQuick), OnePerm, {"present"}, {"table", "xrefstm"}, {"direct", "indirect"}))
 ContentFull  == Valid(Mk(Algs(KeyLensFull), OnePerm, BothIds, {"table", "xrefstm"}, {"direct", "indirect"}))
 \* "mixed": the full product on reduced sets (thorough tier)
 MixedCfg == Valid(Mk(Algs({40, 128}), {{"print"}, {"modify", "extract"}}, BothIds, {"table", "xrefstm"}, {"direct", "indirect"}))
